@@ -201,6 +201,38 @@ def run(chk: Check):
     for s in calls_named(ctx, "read"):
         chk.formula("K-FORMULA", "flat:read-length", s, R.expr(ctx, s.args[0]), spec_expr("count * 512", env))
     _typestate(chk, ctx, "flat")
+    ictx = chk.func(REL, "RawDisk.__init__")
+    SZ, FHp = ("p", ictx.qual, 2), ("p", ictx.qual, 1)
+    size_t = R.self_attr(rk, "size")
+    alts = S.alternatives(size_t)
+    ok_sz = SZ in alts and any(a[0] == "call" and a[1] == ".tell" and a[2][0] == FHp for a in alts) and len(alts) == 2
+    chk.decide(ok_sz, "K-FORMULA", "flat:size", ictx.func, "a flat extent's size is the descriptor's size when given, else the file size (seek to END, tell)",
+               found=S.show(size_t)[:200])
+    if size_t[0] == "ite":
+        tab = {}
+        for v in (None, 0, 512, 1 << 40):
+            try:
+                tab[v] = S.ev(size_t, S.Valuation(1, override={SZ: v, S.call(".tell", [FHp]): 777}))
+            except S.EvalError:
+                tab[v] = "?"
+        chk.decide(tab == {None: 777, 0: 777, 512: 512, 1 << 40: 1 << 40}, "K-DISPATCH", "flat:size-source", ictx.func,
+                   "the given size wins; only a missing size falls back to the file size", found=str(tab))
+    ends = [s_ for s_ in calls_named(ictx, "seek") if len(s_.args) == 2]
+    okend = any(R.expr(ictx, s_.args[0]) == S.C(0) and R.expr(ictx, s_.args[1]) == S.C(2) for s_ in ends)
+    chk.decide(okend, "K-CONST", "flat:file-size-probe", ictx.func, "the file size is probed with seek(0, SEEK_END)")
+    sc = R.self_attr(rk, "sector_count")
+    chk.formula("K-FORMULA", "flat:sector-count", ictx.func, sc, S.op("floordiv", size_t, S.C(512)))
+    if chk.prog.has_func(REL, "ZeroDisk.__init__"):
+        zk = chk.prog.cls(REL, "ZeroDisk").key
+        zctx = chk.func(REL, "ZeroDisk.__init__")
+        chk.formula("K-FORMULA", "zero:sector-count", zctx.func, R.self_attr(zk, "sector_count"), S.op("floordiv", ("p", zctx.qual, 1), S.C(512)))
+        chk.decide(R.self_attr(zk, "size") == ("p", zctx.qual, 1), "K-FORMULA", "zero:size", zctx.func, "a zero extent's size is the size it is created with")
+        rz = chk.func(REL, "ZeroDisk.read_sectors")
+        from ..rulelib import func_outcomes, zeros_len
+        outs = func_outcomes(chk, rz)
+        z = zeros_len(outs[0][3]) if outs else None
+        chk.decide(z is not None and S.equiv(z, S.op("mul", ("p", rz.qual, 2), S.C(512)), n=20).equal is True, "K-FORMULA", "zero:read", rz.func,
+                   "a zero extent reads as count * 512 zero bytes")
     _byte_to_sector(chk, REL, "VMDK._read", S.C(512))
     for q in ("VMDK._read", "VMDK.read_sectors", "RawDisk.read_sectors", "SparseDisk.read_sectors", "SparseDisk.get_runs",
               "SparseDisk._lookup_grain", "SparseDisk._lookup_grain_table", "SparseDisk._read_compressed_grain"):
